@@ -93,6 +93,8 @@ THEOREMS = [
        "full-under-monitored-hypothesis holds with nothing monitored"),
     _T("adm_below_liquidus", "the monitored trajectory hypothesis is a THEOREM for a process that starts at or below the liquidus "
        "(C06.Stable with hi = T_eq_l, static inequality StaticSide; C06.trajAdm_below_liquidus)"),
+    _T("nonvacuous_adm_uncoupled", "adm_uncoupled applied to the concrete run with ice of Lemmas/FlakeExRun.lean (one vial, "
+       "k_int = 0): its hypotheses are satisfiable", "nonvacuity"),
     _T("hyp_jump_of_valid", "the hypothesis 'positive initial ice' holds for every physically valid constant set (both formulations)"),
     _T("nonvacuous", "hypotheses are satisfiable (a concrete run that nucleates and crosses the threshold)", "nonvacuity"),
 ]
